@@ -7,6 +7,7 @@ import numpy as np
 import shapely
 
 from harness import util
+from harness.gen import c02_extra as X
 from harness.gen import datasets as G
 from harness.gen import geomspec as S
 
@@ -22,7 +23,13 @@ RULE = ('datasets of every convention on sheared, non-symmetric integer lattices
         'every polygon), with and without holes, with tagged variables (incl. missing values) on every grid kind, '
         '0-2 extra dimensions, every dimension order. UGRID face-node tables walk every layout: face_dimension attribute '
         'written / left out (faces-first only), stored transposed, fewer / as many / more faces than the table is wide '
-        '(tiny and clipped meshes, padded tables). Compared with the model: full polygon list, face centres, '
+        '(tiny and clipped meshes, padded tables). Every fifth case is followed by ONE dataset holding several horizontal grids '
+        '(2-3 CF 1-D / CF 2-D / SHOC standard parts merged ROMS-like under their own dimension and coordinate names, or the four '
+        'grids of one SHOC standard file) used through 2-4 convention objects one after the other, in random order: each part '
+        'through its own class with the coordinate names passed explicitly (CFGrid1D / CFGrid2D(latitude=, longitude=), '
+        'ShocStandard, ArakawaC(coordinate_names=)), SHOC face / left / back / node grids also as CFGrid2D over that grid\'s '
+        'coordinates; at most one of them bound to the dataset, the others only constructed; every clause is checked on every '
+        'one of them against the ground truth of its own grid. Compared with the model: full polygon list, face centres, '
         'ravel of every variable, select_index at sampled linear indexes of every grid kind. Oracle, cell by cell: '
         'every grid has exactly as many positions as the dataset has cells/nodes/edges; ravel(v)[.., n] == select_index(wind_index(n))[v] '
         '(neither may raise); as many polygons as cells; polygon n is built from cell n own coordinates; '
@@ -53,11 +60,31 @@ def native(built, c, kind, comps):
 
 
 def examine(ctx, recipe, items) -> None:
-    rng = ctx.rng
+    if recipe.get('conv') == 'multi':
+        # one dataset, several grids, several convention objects: each is examined in full, in the recipe's order,
+        # against the ground truth of its own grid
+        # (all of them are constructed - and the bound one bound - before any is used, as a script would do)
+        made = []
+        for vi, view in enumerate(X.build_multi(recipe)):
+            ctx.count(f"multi-view:{view.spec['as'].split(':')[0]}:{view.spec['how']}")
+            desc = {'recipe': recipe, 'view': vi, 'convention': view.label}
+            try:
+                made.append((desc, view, view.make()))
+            except Exception as e:
+                ctx.oracle_fail('convention-raises', desc, f'{view.label} on a dataset that holds that grid: {type(e).__name__}: {e}')
+        for desc, view, c in made:
+            examine_view(ctx, desc, view.built, c, items)
+        return
     built = G.build(recipe)
+    examine_view(ctx, {'recipe': recipe}, built, G.bind(built), items)
+
+
+def examine_view(ctx, desc, built, c, items) -> None:
+    """every clause of the property on one convention object `c`; `built` is the generator's ground truth of the
+    grid that `c` describes"""
+    rng = ctx.rng
+    recipe = built.recipe
     conv = built.conv
-    c = G.bind(built)
-    desc = {'recipe': recipe}
     gs = grids_spec(built)
     raw = built.polys
     vbits = S.geos_valid_bits(raw)
@@ -83,7 +110,7 @@ def examine(ctx, recipe, items) -> None:
     except Exception as e:
         pout, polys = 'ERR', None
         ctx.oracle_fail('polygons-raise', desc, f'polygons of a well-formed dataset: {type(e).__name__}: {e}')
-    items.append((line, pout, {'recipe': recipe, 'op': line}))
+    items.append((line, pout, {**desc, 'op': line}))
     if polys is not None and len(polys) != len(raw):
         ctx.oracle_fail('polygon-count', desc, f'{len(polys)} polygons for {len(raw)} cells')
     for n, (p, q) in enumerate(zip(polys or [], kept)):
@@ -112,7 +139,7 @@ def examine(ctx, recipe, items) -> None:
             cl = None
         if cl is not None:
             out = ';'.join(f"{'-' if np.isnan(x) else util.rat_str(Fraction(float(x)))},{'-' if np.isnan(y) else util.rat_str(Fraction(float(y)))}" for x, y in fc)
-            items.append((cl, out, {'recipe': recipe, 'op': cl}))
+            items.append((cl, out, {**desc, 'op': cl}))
         if len(fc) != len(raw):
             ctx.oracle_fail('centre-count', desc, f'{len(fc)} centres for {len(raw)} cells')
         else:
@@ -167,7 +194,7 @@ def examine(ctx, recipe, items) -> None:
             flat, fout = None, 'ERR'
             ctx.oracle_fail('ravel-raises', {**desc, 'var': name},
                             f'ravel of {name} {dict(da.sizes)}, defined on the {info.kind} grid {dict(zip(gdims, gshape))}: {type(e).__name__}: {e}')
-        items.append((rl, fout, {'recipe': recipe, 'op': rl}))
+        items.append((rl, fout, {**desc, 'op': rl}))
         size = int(np.prod(gshape))
         nontriv = any(q is None for q in raw) or len(info.dims) > len(gdims) or (len(gshape) == 2 and gshape[0] != gshape[1])
         for n in rng.sample(range(size), min(size, 5)):
@@ -182,7 +209,7 @@ def examine(ctx, recipe, items) -> None:
                 picked, pout = None, 'ERR'
                 ctx.oracle_fail('select-raises', {**desc, 'var': name, 'n': n},
                                 f'select_index(wind_index({n}, {info.kind})) [{name}] on a grid of {size} positions: {type(e).__name__}: {e}')
-            items.append((sl, pout, {'recipe': recipe, 'op': sl, 'var': name, 'n': n}))
+            items.append((sl, pout, {**desc, 'op': sl, 'var': name, 'n': n}))
             if nontriv:
                 ctx.nontrivial((str(recipe), name, n))
             if flat is not None and picked is not None:
@@ -262,10 +289,16 @@ def make_recipe(ctx, k):
 def run(ctx) -> None:
     global _LAYOUT_AT
     _LAYOUT_AT = None
+    rng = ctx.rng
     items: list = []
     for k in range(ctx.budget(55, 330)):
         recipe = make_recipe(ctx, k)
         ctx.guarded(lambda: examine(ctx, recipe, items), {'recipe': recipe})
+        if k % 5 == 2:
+            # one dataset with several grids, used through several convention objects one after the other
+            multi = X.random_multi(rng, ctx.tier)
+            ctx.count('multi:' + '+'.join(p['conv'] for p in multi['parts']))
+            ctx.guarded(lambda: examine(ctx, multi, items), {'recipe': multi})
     if ctx.searching and ctx.driver is None:
         ctx.evaluated(len(items))
         return
